@@ -639,6 +639,7 @@ func runRegHistoryTd(r *h.Report, d *h.Driver, ev *regEvents, base int, ops []st
 	done := []string{ops[0]}
 	canonImpl := map[string]map[string]int{"subs": {}, "binds": {}}
 	canonModel := map[string]map[string]int{"subs": {}, "binds": {}}
+	wireShown := "" // the list a peer was sent over the wire in the current step ("" = none read)
 	for _, op := range ops[1:] {
 		f := strings.Fields(op)
 		if len(f) == 0 {
@@ -1108,6 +1109,7 @@ func runRegHistoryTd(r *h.Report, d *h.Driver, ev *regEvents, base int, ops []st
 			if q > np {
 				continue
 			}
+			wireShown = ""
 			var api_ []regEntry
 			if f[0] == "subs" {
 				api_ = w.subsOf(q)
@@ -1134,16 +1136,17 @@ func runRegHistoryTd(r *h.Report, d *h.Driver, ev *regEvents, base int, ops []st
 					if c0.NodeManagementSubscriptionData != nil {
 						got = true
 						for _, e := range c0.NodeManagementSubscriptionData.SubscriptionEntry {
-							wire = append(wire, regEntry{id: uint64(*e.SubscriptionId), peer: q, ce: h.EntStr(e.ClientAddress.Entity), cf: uint(*e.ClientAddress.Feature), se: h.EntStr(e.ServerAddress.Entity), sf: uint(*e.ServerAddress.Feature)})
+							wire = append(wire, regEntry{id: uint64(*e.SubscriptionId), peer: regWirePeer(e.ClientAddress, e.ServerAddress), ce: h.EntStr(e.ClientAddress.Entity), cf: uint(*e.ClientAddress.Feature), se: h.EntStr(e.ServerAddress.Entity), sf: uint(*e.ServerAddress.Feature)})
 						}
 					}
 					if c0.NodeManagementBindingData != nil {
 						got = true
 						for _, e := range c0.NodeManagementBindingData.BindingEntry {
-							wire = append(wire, regEntry{id: uint64(*e.BindingId), peer: q, ce: h.EntStr(e.ClientAddress.Entity), cf: uint(*e.ClientAddress.Feature), se: h.EntStr(e.ServerAddress.Entity), sf: uint(*e.ServerAddress.Feature)})
+							wire = append(wire, regEntry{id: uint64(*e.BindingId), peer: regWirePeer(e.ClientAddress, e.ServerAddress), ce: h.EntStr(e.ClientAddress.Entity), cf: uint(*e.ClientAddress.Feature), se: h.EntStr(e.ServerAddress.Entity), sf: uint(*e.ServerAddress.Feature)})
 						}
 					}
 				}
+				wireShown = regShow(wire)
 				if !got || regShow(wire) != impl {
 					r.SpecFail(map[string]string{"subs": "C08", "binds": "C09"}[f[0]]+"/reported-list-differs", done, fmt.Sprintf("list sent to peer %d: %s (reply seen: %v), registry: %s", q, regShow(wire), got, impl))
 				}
@@ -1343,6 +1346,15 @@ func runRegHistoryTd(r *h.Report, d *h.Driver, ev *regEvents, base int, ops []st
 			if impl != want {
 				r.Mismatch(done, impl, want, "registry op "+op)
 				return false
+			}
+			if (f[0] == "subs" || f[0] == "binds") && wireShown != "" && w.td == nil {
+				// the reply as sent over the wire against Spine.RegWire (ids by order of first appearance, as above)
+				wi, wm := regCanonIDs(wireShown, canonImpl[f[0]]), regCanonIDs(d.Ask("wire "+op), canonModel[f[0]])
+				if wi != wm {
+					r.Mismatch(done, wi, wm, "list sent over the wire, "+op)
+					return false
+				}
+				r.Eval("wire:"+f[0], "")
 			}
 		}
 	}
